@@ -41,9 +41,13 @@ func TestVerifReplay(t *testing.T) {
 	// Manual cases first so that anything a sync leaves behind in the syncer shows up later
 	var cur *test.MockClient
 	shared := &test.MockClient{
-		MockGet:          func(ctx context.Context, k client.ObjectKey, o client.Object) error { return cur.MockGet(ctx, k, o) },
-		MockUpdate:       func(ctx context.Context, o client.Object, opts ...client.UpdateOption) error { return cur.MockUpdate(ctx, o, opts...) },
-		MockPatch:        func(ctx context.Context, o client.Object, p client.Patch, opts ...client.PatchOption) error { return cur.MockPatch(ctx, o, p, opts...) },
+		MockGet: func(ctx context.Context, k client.ObjectKey, o client.Object) error { return cur.MockGet(ctx, k, o) },
+		MockUpdate: func(ctx context.Context, o client.Object, opts ...client.UpdateOption) error {
+			return cur.MockUpdate(ctx, o, opts...)
+		},
+		MockPatch: func(ctx context.Context, o client.Object, p client.Patch, opts ...client.PatchOption) error {
+			return cur.MockPatch(ctx, o, p, opts...)
+		},
 		MockStatusUpdate: test.NewMockSubResourceUpdateFn(nil),
 	}
 	syncer := NewServerSideCompositeSyncer(shared, names.NameGeneratorFn(func(_ context.Context, o resource.Object) error { o.SetName("cool-claim-generated"); return nil }))
